@@ -262,7 +262,7 @@ def run(ctx):
         if pm == "_psbsd":
             ctx.advisory("C20.R5: FreeBSD/OpenBSD/NetBSD fill the 'saved gid' slot from "
                          "the saved *uid* member (ki_svuid/p_svuid) - outside the property "
-                         "statement, not decided")
+                         "statement")
 
     _windows_meminfo(ctx, repo)
     _windows_fallbacks(ctx, repo)
@@ -479,7 +479,8 @@ def _zombie_recognition(ctx, repo):
                     for a, b in ((l, rr), (rr, l)):
                         if norm_stmt(b).endswith("STATUS_ZOMBIE") and "PROC_STATUSES" in norm_stmt(a):
                             zfn = set(ztab)              # looked up in the table itself
-                        elif dotted(b) and dotted(b).startswith("cext.") and isinstance(a, ast.Name):
+                        elif dotted(b) and dotted(b).startswith("cext.") and dotted(b).split(".")[-1].isupper() \
+                                and (isinstance(a, ast.Name) or "status" in norm_stmt(a)):
                             zfn = {dotted(b)}
                 elif isinstance(r.ops[0], ast.In) and isinstance(rr, (ast.Tuple, ast.Set, ast.List)):
                     zfn = {dotted(x) for x in rr.elts}
@@ -589,7 +590,12 @@ def _windows_meminfo(ctx, repo):
         v = calls[0].args[0].value
         if isinstance(v, ast.BinOp) and isinstance(v.op, ast.Add) and isinstance(v.left, ast.Tuple) \
                 and len(v.left.elts) == 2 and dotted(v.right) == rec:
-            a, b = (idx.get(dotted(x)) for x in v.left.elts)
+            def slot(x):
+                if isinstance(x, ast.Subscript) and isinstance(x.slice, ast.Constant) \
+                        and isinstance(x.slice.value, int):
+                    return (dotted(x.value), x.slice.value)
+                return idx.get(dotted(x))
+            a, b = (slot(x) for x in v.left.elts)
             if a and b and a[0] == b[0] == rec and 0 <= a[1] < len(rest) and 0 <= b[1] < len(rest) \
                     and rest[a[1]] == "wset" and rest[b[1]] == "pagefile":
                 ok = True
